@@ -145,3 +145,40 @@ def run(ck):
         # a second handleFds may only be reached through poll
         ck.ob("C07-R3", "runOnce/handleFds->poll", reenter and not again, e.loc, r,
               "poll re-entered after handleFds" if reenter and not again else "handleFds can repeat without polling")
+
+    # R6: the premises of the would-block protocol itself
+    ck.rule("C07-R6", "C must-pass-through + D who-may-use",
+            "every accepted connection is switched to non-blocking mode before it is handed to a worker (sendfile(2) takes no per-call "
+            "flag: on a blocking descriptor it never reports would-block and parks the worker in the kernel); and the interest a worker "
+            "arms with modifyFd is persistent — EPOLLONESHOT is set only by the explicit one-shot registration (addFdOneShot), never by "
+            "addFd / rearmFd: a one-shot write interest is used up by the next *readable* event and the stalled queue is never resumed", 3)
+    L = "Pistache::Tcp::Listener::"
+    hn = lib.single(prog, L + "handleNewConnection")
+    dp = [e for e in hn.calls(lambda e: (e.get("callee") or "") == L + "dispatchPeer")]
+    ck.require(dp, "dispatchPeer call not found in Listener::handleNewConnection")
+    mnb = summ.lift_must(lambda e: e["k"] == "call" and (e.get("callee") or "") in ("Pistache::make_non_blocking",), "make-non-blocking")
+    blocking = []
+
+    def nb_step(st, ev):
+        if mnb(ev):
+            return 1
+        if any(ev is d_ for d_ in dp) and st == 0:
+            blocking.append(ev)
+        return st
+    cfg.run_automaton(hn, 0, nb_step)
+    ck.ob("C07-R6", "handleNewConnection/non-blocking-before-dispatch", not blocking, dp[0].loc, hn,
+          "make_non_blocking(client_fd) on every path to dispatchPeer" if not blocking else
+          "a connection can reach dispatchPeer without having been made non-blocking: a write the peer does not read blocks the worker")
+    EP = "Pistache::Polling::Epoll::"
+    nfn = 0
+    for fn_ in prog.funcs.values():
+        if not fn_.base.startswith(EP) or fn_.is_lambda or not fn_.blocks:
+            continue
+        uses = [e for e in fn_.events() if "e:EPOLLONESHOT" in (e.get("refs") or []) or e.get("const") == "e:EPOLLONESHOT" or "EPOLLONESHOT" in (e.get("t") or "")]
+        if fn_.base in (EP + "addFd", EP + "rearmFd", EP + "addFdOneShot", EP + "toEpollEvents"):
+            nfn += 1
+            ok_ = (not uses) or fn_.base == EP + "addFdOneShot"
+            ck.ob("C07-R6", "%s/one-shot-only-on-request" % fn_.base.replace("Pistache::Polling::", ""), ok_, uses[0].loc if uses else fn_.loc, fn_,
+                  "no EPOLLONESHOT" if not uses else ("the explicit one-shot registration" if ok_ else
+                  "EPOLLONESHOT is set in %s: the registration made through modifyFd/registerFd is silently one-shot" % fn_.base.rsplit("::", 1)[1]))
+    ck.require(nfn >= 3, "Epoll registration functions found: %d" % nfn)
